@@ -2419,7 +2419,7 @@ class BADS:
                 | ~np.isreal(f_target_s)
                 | ~np.isfinite(f_target_s)
             ):
-                f_target_mu = self.optim_state["fval"]
+                f_target_mu = np.asarray(self.optim_state["fval"])
                 f_target_s = self.optim_state["fsd"]
 
             # f_target: Set optimization target slightly below the current incumbent
